@@ -41,16 +41,115 @@ import (
 //go:embed known_funcs.txt
 var knownFuncsTxt string
 
-var knownFuncs = func() map[string]bool {
-	m := map[string]bool{}
+// knownFuncs: key -> signature ("(T1,T2)(R1)") as printed from the syntax
+var knownSigs = func() map[string]string {
+	m := map[string]string{}
 	for _, l := range strings.Split(knownFuncsTxt, "\n") {
 		l = strings.TrimSpace(l)
 		if l != "" && !strings.HasPrefix(l, "#") {
-			m[l] = true
+			k, sig, _ := strings.Cut(l, "\t")
+			m[k] = sig
 		}
 	}
 	return m
 }()
+
+var knownFuncs = func() map[string]bool {
+	m := map[string]bool{}
+	for k := range knownSigs {
+		m[k] = true
+	}
+	return m
+}()
+
+// funcSig prints parameter and result types of a declaration (no names), from the syntax.
+func funcSig(fd *ast.FuncDecl) string {
+	var b strings.Builder
+	list := func(fl *ast.FieldList) {
+		b.WriteString("(")
+		if fl != nil {
+			first := true
+			for _, f := range fl.List {
+				n := len(f.Names)
+				if n == 0 {
+					n = 1
+				}
+				for i := 0; i < n; i++ {
+					if !first {
+						b.WriteString(",")
+					}
+					first = false
+					var tb bytes.Buffer
+					_ = printer.Fprint(&tb, token.NewFileSet(), f.Type)
+					b.WriteString(strings.Join(strings.Fields(tb.String()), ""))
+				}
+			}
+		}
+		b.WriteString(")")
+	}
+	ptr := ""
+	if fd.Recv != nil && len(fd.Recv.List) > 0 {
+		if _, ok := fd.Recv.List[0].Type.(*ast.StarExpr); ok {
+			ptr = "*"
+		}
+	}
+	b.WriteString(ptr)
+	list(fd.Type.Params)
+	list(fd.Type.Results)
+	return b.String()
+}
+
+// renamedFuncs: "<dir>:<recv>.<newName>" -> old name, for every function of the confirmed tree that is gone while
+// exactly one new function with the same receiver type and the same signature appeared in the same directory — a
+// rename. The rules keep addressing it by its confirmed name (see typeFuncName); it is not a new helper.
+var renamedFuncs = map[string]string{}
+
+func detectRenames(repo string) []string {
+	cur, err := dumpKnownFuncs(repo)
+	if err != nil {
+		return nil
+	}
+	curSig := map[string]string{}
+	for _, l := range cur {
+		k, sig, _ := strings.Cut(l, "\t")
+		curSig[k] = sig
+	}
+	split := func(k string) (dir, recv, name string) {
+		i := strings.Index(k, ":")
+		dir, rest := k[:i], k[i+1:]
+		j := strings.LastIndex(rest, ".")
+		return dir, rest[:j], rest[j+1:]
+	}
+	var log []string
+	used := map[string]bool{}
+	var missing []string
+	for k := range knownSigs {
+		if _, ok := curSig[k]; !ok {
+			missing = append(missing, k)
+		}
+	}
+	sort.Strings(missing)
+	for _, m := range missing {
+		md, mr, mn := split(m)
+		var cands []string
+		for k, sig := range curSig {
+			if knownFuncs[k] || used[k] {
+				continue
+			}
+			d, r, _ := split(k)
+			if d == md && r == mr && sig == knownSigs[m] {
+				cands = append(cands, k)
+			}
+		}
+		if len(cands) == 1 {
+			used[cands[0]] = true
+			renamedFuncs[cands[0]] = mn
+			_, _, nn := split(cands[0])
+			log = append(log, fmt.Sprintf("function %s is taken for the renamed %s (same receiver and signature, the old name is gone); rules address it by its confirmed name", nn, m))
+		}
+	}
+	return log
+}
 
 // funcKey: "<dir relative to the module root>:<receiver type>.<name>" — computed from syntax only.
 func funcKey(relDir string, fd *ast.FuncDecl) string {
@@ -104,7 +203,7 @@ func dumpKnownFuncs(repo string) ([]string, error) {
 		rel, _ := filepath.Rel(repo, filepath.Dir(path))
 		for _, d := range f.Decls {
 			if fd, ok := d.(*ast.FuncDecl); ok {
-				out = append(out, funcKey(rel, fd))
+				out = append(out, funcKey(rel, fd)+"\t"+funcSig(fd))
 			}
 		}
 		return nil
@@ -120,7 +219,8 @@ func hasNewFuncs(repo string) bool {
 	if err != nil {
 		return false
 	}
-	for _, k := range ks {
+	for _, l := range ks {
+		k, _, _ := strings.Cut(l, "\t")
 		if !knownFuncs[k] {
 			return true
 		}
@@ -155,10 +255,15 @@ func (pi *preInliner) logf(format string, a ...any) {
 // preInline returns an overlay (absolute file name -> content) in which new helpers are substituted into their
 // callers, or nil when there is nothing to do / nothing could be done.
 func preInline(repo string, env []string) (map[string][]byte, []string) {
-	if os.Getenv("VERIF_NO_PREINLINE") != "" || !hasNewFuncs(repo) {
+	if os.Getenv("VERIF_NO_PREINLINE") != "" {
+		return nil, nil
+	}
+	if fr, _ := detectFieldRenames(repo); !hasNewFuncs(repo) && len(fr) == 0 {
 		return nil, nil
 	}
 	pi := &preInliner{repo: repo, env: env, overlay: map[string][]byte{}}
+	pi.Log = append(pi.Log, detectRenames(repo)...)
+	pi.undoFieldRenames()
 	for round := 0; round < 4; round++ {
 		changed, err := pi.round()
 		if err != nil {
@@ -234,6 +339,9 @@ func (pi *preInliner) round() (bool, error) {
 					continue
 				}
 				key := funcKey(relDir, fd)
+				if _, renamed := renamedFuncs[key]; renamed {
+					continue
+				}
 				if knownFuncs[key] || ast.IsExported(fd.Name.Name) || fd.Name.Name == "init" || fd.Name.Name == "main" || fd.Name.Name == "_" {
 					continue
 				}
@@ -782,4 +890,224 @@ func cloneIdents(es []ast.Expr) []ast.Expr {
 		out = append(out, ast.NewIdent(e.(*ast.Ident).Name))
 	}
 	return out
+}
+
+// ---------------------------------------------------------------------------------------------
+// Renamed unexported struct fields: a field of the confirmed tree that is gone while exactly one new field of the
+// same declared type appeared in the same struct is a rename; it is renamed BACK in the overlay (every identifier
+// that resolves to the field object), so the rules keep finding `rwlock`, `pages`, `alloctx` ... by their
+// confirmed names.
+
+//go:embed known_fields.txt
+var knownFieldsTxt string
+
+func dumpKnownFields(repo string) ([]string, error) {
+	var out []string
+	err := filepath.Walk(repo, func(path string, info os.FileInfo, err error) error {
+		if err != nil {
+			return err
+		}
+		if info.IsDir() {
+			if n := info.Name(); n == ".git" || n == "testdata" || n == "vendor" {
+				return filepath.SkipDir
+			}
+			return nil
+		}
+		if !strings.HasSuffix(path, ".go") || strings.HasSuffix(path, "_test.go") {
+			return nil
+		}
+		f, err := parser.ParseFile(token.NewFileSet(), path, nil, parser.SkipObjectResolution)
+		if err != nil {
+			return nil
+		}
+		rel, _ := filepath.Rel(repo, filepath.Dir(path))
+		ast.Inspect(f, func(n ast.Node) bool {
+			ts, ok := n.(*ast.TypeSpec)
+			if !ok {
+				return true
+			}
+			st, ok := ts.Type.(*ast.StructType)
+			if !ok {
+				return true
+			}
+			idx := 0
+			for _, fld := range st.Fields.List {
+				var tb bytes.Buffer
+				_ = printer.Fprint(&tb, token.NewFileSet(), fld.Type)
+				typ := strings.Join(strings.Fields(tb.String()), "")
+				for _, nm := range fld.Names {
+					out = append(out, fmt.Sprintf("%s:%s.%s\t%s#%d", rel, ts.Name.Name, nm.Name, typ, idx))
+					idx++
+				}
+				if len(fld.Names) == 0 {
+					idx++
+				}
+			}
+			return true
+		})
+		return nil
+	})
+	sort.Strings(out)
+	// the same struct may be declared once per platform file: keep one line per key
+	var uniq []string
+	for i, l := range out {
+		if i == 0 || l != out[i-1] {
+			uniq = append(uniq, l)
+		}
+	}
+	return uniq, err
+}
+
+func typeOnly(s string) string {
+	if i := strings.LastIndex(s, "#"); i >= 0 {
+		return s[:i]
+	}
+	return s
+}
+
+// detectFieldRenames returns (dir -> type -> newName -> oldName).
+func detectFieldRenames(repo string) (map[string]map[string]map[string]string, []string) {
+	known := map[string]string{}
+	for _, l := range strings.Split(knownFieldsTxt, "\n") {
+		l = strings.TrimSpace(l)
+		if l != "" && !strings.HasPrefix(l, "#") {
+			k, t, _ := strings.Cut(l, "\t")
+			known[k] = t
+		}
+	}
+	cur := map[string]string{}
+	ls, err := dumpKnownFields(repo)
+	if err != nil {
+		return nil, nil
+	}
+	for _, l := range ls {
+		k, t, _ := strings.Cut(l, "\t")
+		cur[k] = t
+	}
+	split := func(k string) (dirType, name string) {
+		j := strings.LastIndex(k, ".")
+		return k[:j], k[j+1:]
+	}
+	res := map[string]map[string]map[string]string{}
+	var log []string
+	used := map[string]bool{}
+	var missing []string
+	for k := range known {
+		if _, ok := cur[k]; !ok {
+			missing = append(missing, k)
+		}
+	}
+	sort.Strings(missing)
+	for _, m := range missing {
+		mdt, mn := split(m)
+		if ast.IsExported(mn) {
+			continue
+		}
+		var cands []string
+		for k, t := range cur {
+			if _, isKnown := known[k]; isKnown || used[k] {
+				continue
+			}
+			dt, n := split(k)
+			if dt == mdt && typeOnly(t) == typeOnly(known[m]) && !ast.IsExported(n) {
+				cands = append(cands, k)
+			}
+		}
+		if len(cands) > 1 {
+			// several new fields of that type: the one at the same position in the struct
+			var same []string
+			for _, k := range cands {
+				if cur[k] == known[m] {
+					same = append(same, k)
+				}
+			}
+			cands = same
+		}
+		if len(cands) != 1 {
+			continue
+		}
+		used[cands[0]] = true
+		_, nn := split(cands[0])
+		i := strings.Index(mdt, ":")
+		dir, typ := mdt[:i], mdt[i+1:]
+		if res[dir] == nil {
+			res[dir] = map[string]map[string]string{}
+		}
+		if res[dir][typ] == nil {
+			res[dir][typ] = map[string]string{}
+		}
+		res[dir][typ][nn] = mn
+		log = append(log, fmt.Sprintf("field %s.%s is taken for the renamed %s (same struct, same type, the old name is gone); it is analysed under its confirmed name", typ, nn, m))
+	}
+	return res, log
+}
+
+// undoFieldRenames rewrites the identifiers of renamed fields back to their confirmed names (overlay only).
+func (pi *preInliner) undoFieldRenames() {
+	ren, log := detectFieldRenames(pi.repo)
+	if len(ren) == 0 {
+		return
+	}
+	pkgs, err := pi.load()
+	if err != nil {
+		pi.logf("field renames not undone: %v", err)
+		return
+	}
+	for _, pkg := range pkgs {
+		if len(pkg.CompiledGoFiles) == 0 {
+			continue
+		}
+		relDir, err := filepath.Rel(pi.repo, filepath.Dir(pkg.CompiledGoFiles[0]))
+		if err != nil || ren[relDir] == nil {
+			continue
+		}
+		objs := map[types.Object]string{}
+		for typ, m := range ren[relDir] {
+			tn, _ := pkg.Types.Scope().Lookup(typ).(*types.TypeName)
+			if tn == nil {
+				continue
+			}
+			st, ok := tn.Type().Underlying().(*types.Struct)
+			if !ok {
+				continue
+			}
+			for i := 0; i < st.NumFields(); i++ {
+				if old, ok := m[st.Field(i).Name()]; ok {
+					objs[st.Field(i)] = old
+				}
+			}
+		}
+		if len(objs) == 0 {
+			continue
+		}
+		for _, f := range pkg.Syntax {
+			changed := false
+			ast.Inspect(f, func(n ast.Node) bool {
+				id, ok := n.(*ast.Ident)
+				if !ok {
+					return true
+				}
+				var o types.Object
+				if d := pkg.TypesInfo.Defs[id]; d != nil {
+					o = d
+				} else if u := pkg.TypesInfo.Uses[id]; u != nil {
+					o = u
+				}
+				if old, ok := objs[o]; ok && o != nil {
+					id.Name = old
+					changed = true
+				}
+				return true
+			})
+			if changed {
+				name := pkg.Fset.Position(f.Package).Filename
+				if src, err := pi.printFile(pkg.Fset, f); err == nil {
+					pi.overlay[name] = src
+				} else {
+					pi.logf("field renames not undone in %s: %v", name, err)
+				}
+			}
+		}
+	}
+	pi.Log = append(pi.Log, log...)
 }
